@@ -37,6 +37,13 @@ NOTES = {
  "C07b-admission-release-fast-path": ("C07", "a complete drain() falls between the last in-flight sender's status load and its decrement in MessageAdmission::drop: nobody queues the marker and the actor stays Draining", ""),
  "C08b-join-recheck-removed": ("C08", "another task is inside pg::join for the starting actor, between the status pre-filter and the insertion, while the start fails and its clean-up runs", "caught by C11 from the start; missed by C08 (side effects were performed by pre_start itself at task granularity); an outsider task that joins / monitors / links the starting actor, explored with a decision point before every map, lock and atomic step, was added"),
  "C10b-register-takes-over-stopping-owner": ("C10", "a same-name spawn lands between the owner's status store (Stopping) and its unregister: the newcomer overwrites the entry, the owner's clean-up deletes it", ""),
+ "C02c-call-skips-type-check": ("C02", "a call through an ActorRef of the wrong message type (ActorRef::from(cell) is unchecked): ActorRef::call now bypasses the runtime type check, the wrongly typed message is queued and kills the actor when it is reached", "missed at first (the wrong-type clause was only exercised through ActorCell::send_message); every public send path (send_message, cast, rpc::cast, call, rpc::call, send_after) through the cell and through a wrongly typed ActorRef was added"),
+ "C11b-join-reverse-index-before-group-lock": ("C11", "an exit (or leave) of the joining actor completes between join's reverse-index update and its acquisition of the group entry", ""),
+ "C14b-sticky-hint-prefers-free-worker": ("C14", "sticky routing, every worker busy, two jobs of a third key waiting in the factory queue; one worker takes the first, the other completes while it is still running", "out of reach at first (two keys only; a job whose key is in progress never enters the factory queue, so two same-key jobs in the queue need a third key); three-key dispatch/complete histories of depth 6 were added"),
+ "C15b-drained-ignores-retiring-workers": ("C15", "a shrink hits a busy worker, DrainRequests arrives before it is idle, the other workers are idle: the factory stops and drops the jobs queued behind the retiring worker's job", ""),
+ "C17b-empty-auth-message-skipped": ("C17", "an authentication message with an unset oneof (payload 0A 00) before the handshake: skipped at session level instead of closing the session, which can then still authenticate", "missed at first (the empty message was only fed to the state machine directly); it was added to the alphabet of the live-session sweeps"),
+ "C18b-check-session-first-same-nonce": ("C18", "two sessions registered under the same (peer name, connection id): a legacy peer (id 0) or a repeated id, with the first dial finishing its handshake last, or stalled same-id claims", "missed at first (real nodes draw distinct random ids); a peer played by the harness (it knows the cookie and chooses the ids) was added, run under several hash seeds"),
+ "C20b-pid-monitor-after-scan": ("C20", "an actor is registered between a session's scan of the local actors and its subscription to later spawns (no await in between: needs a decision point inside the registry operations)", "missed at first twice over: every actor existed before the connection or appeared after ready, and at task granularity the window does not exist; a unit that spawns an actor at a schedule-chosen moment during session set-up with decision points at the registry's map operations was added. It also exposed a harness artefact: both nodes live in one process and number their sessions alike, so the two remote references of one actor share a remote id and pg keeps only one; the proxies are now taken from the sessions' child sets"),
 }
 for d in sorted(glob.glob("/verif/seeded/*")):
     sid = os.path.basename(d)
